@@ -194,6 +194,19 @@ def case_entry_points(ctx, s: Subject, ragged=False):
         buf.seek(0)
         return colres(read_parquet(buf)["nest"].array)
     judge("entry.read_parquet", call_real(through_parquet), inp)
+
+    # 5a. the same file loaded field by field (`columns=["nest.a", "nest.b"]`): the struct is put together again from
+    #     the sub-columns by the reader (missing rows do not survive that: K3, so only columns without them are judged
+    #     for content)
+    def through_parquet_partial():
+        import pyarrow.parquet as pq
+        from nested_pandas import read_parquet
+        buf = io.BytesIO()
+        pq.write_table(pa.table({"nest": struct, "other": pa.array(range(len(struct)))}), buf)
+        buf.seek(0)
+        return colres(read_parquet(buf, columns=[f"nest.{nm}" for nm, _ in ty])["nest"].array)
+    if len(ty) >= 2 and (is_ragged or all(r is not None for r in rows)):
+        judge("entry.read_parquet_fields", call_real(through_parquet_partial), inp)
     # 5b. two fields that are windows of ONE parent list array (same offsets buffer, different starts):
     #     rectangular only if the windows have the same row lengths
     if len(ty) >= 2 and n >= 1:
@@ -316,3 +329,61 @@ def failed_assign_leaves_object(ctx, count):
         ok = "err" in real and after.get("ok") == before
         ctx.case(f"ragged_assign.{how}", {**s.desc(), "pos": i, "value": row}, {"outcome": real, "after": after}, None,
                  {"err": "ValueError", "after": before}, hyp=s.hyp, features=(how,), spec_ok=ok)
+
+
+def views_agree(ser):
+    """self-consistency of the views of one column (no model involved): per-row tables, list view, flat view, summaries"""
+    ext = ser.array
+    ll = [int(x) for x in ext.list_lengths]
+    miss = [bool(x) for x in ext.isna()]
+    lists = ser.nest.to_lists()
+    flat = ser.nest.to_flat()
+    out = {"list_lengths": ll, "flat_length": int(ext.flat_length), "flat_rows": len(flat),
+           "offset_diffs": [int(x) for x in np.diff(np.asarray(ext.list_offsets))],
+           "list_view": {c: [0 if v is None else len(v) for v in pa.array(lists[c]).to_pylist()] for c in lists.columns},
+           "tables": [0 if m else len(df) for m, df in zip(miss, list(ext))],
+           "table_cells": [0 if m else int(df.notna().to_numpy().sum()) + int(df.isna().to_numpy().sum()) for m, df in zip(miss, list(ext))],
+           "list_index_counts": [int(x) for x in np.bincount(np.asarray(ext.get_list_index(), dtype=np.int64), minlength=len(ext))] if len(ext) else []}
+    nf = len(lists.columns)
+    ok = (out["flat_length"] == sum(ll) == out["flat_rows"] and out["offset_diffs"] == ll and out["tables"] == ll
+          and all(v == ll for v in out["list_view"].values()) and out["list_index_counts"] == ll
+          and out["table_cells"] == [k * nf for k in ll])
+    # values: the flat view of a field is the concatenation of its lists
+    for c in lists.columns:
+        cat = [x for v in pa.array(lists[c]).to_pylist() if v is not None for x in v]
+        ok = ok and str(cat) == str(pa.array(flat[c]).to_pylist())
+    return ok, out
+
+
+def case_views_of_accepted_windows(ctx):
+    """C03 for columns put together from list arrays that are windows of ONE parent array (same offsets buffer, other
+    starts): whatever an entry point accepts has views that agree (refusing the ragged ones is what C01 asks for)"""
+    from nested_pandas.series.packer import pack_lists
+    rng = ctx.rng
+    n = rng.randint(1, 5)
+    t0 = rng.choice(["int64", "double", "string"])
+    lens = [rng.randint(0, 3) for _ in range(n + 1)]
+    if rng.random() < 0.4:
+        lens = [lens[0]] * (n + 1)
+    parent = gen.mk_list_array([[gen.rand_cell(rng, t0, p_null=0.0, p_nan=0.0) for _ in range(k)] for k in lens], t0)
+    wa, wb = parent.slice(0, n), parent.slice(1, n)
+    rect = lens[:n] == lens[1:n + 1]
+    index = pd.Index(gen.rand_labels(rng, n))
+    sa = pd.Series(wa, dtype=pd.ArrowDtype(wa.type), index=index)
+    sb = pd.Series(wb, dtype=pd.ArrowDtype(wb.type), index=index)
+    ways = {
+        "constructor": lambda: pd.Series(NestedExtensionArray(pa.StructArray.from_arrays([wa, wb], names=["a", "b"])), index=index),
+        "pack_lists": lambda: pack_lists(pd.DataFrame({"a": sa, "b": sb})),
+        "from_lists": lambda: NestedFrame.from_lists(pd.DataFrame({"a": sa, "b": sb}), name="nest")["nest"],
+        "with_list_field": lambda: pack_lists(pd.DataFrame({"a": sa})).nest.with_list_field("b", sb),
+        "sliced.with_list_field": lambda: pack_lists(pd.DataFrame({"a": pd.Series(parent, dtype=pd.ArrowDtype(parent.type))})).iloc[:n]
+                                          .nest.with_list_field("b", sb.reset_index(drop=True)),
+    }
+    for nm, fn in ways.items():
+        def run(fn=fn):
+            ok, out = views_agree(fn())
+            return {"agree": ok, "views": out}
+        real = call_real(run)
+        ok = ("err" in real and not rect) or ("ok" in real and real["ok"]["agree"])
+        ctx.case(f"views.accepted_windows.{nm}", {"parent_lens": lens, "ty": t0}, real, None, None,
+                 features=("accepted_windows", nm, f"rect={rect}"), spec_ok=ok, nontrivial=sum(lens) > 0)
